@@ -78,6 +78,8 @@ type ClusterOpts struct {
 	Permissions map[string][]*checker.Permissions
 	ProcessOp   []standardprocess.Parameter
 	NDAccounts  int // number of accounts created in nd wallet "N" of each instance
+	// NDWallets creates further nd wallets with the named accounts (keys from DetKey("ndw-<wallet>", i)).
+	NDWallets map[string][]string
 }
 
 // NewCluster builds the instances; every instance has a distributed wallet "D" (and an nd wallet "N").
@@ -114,6 +116,22 @@ func NewCluster(o ClusterOpts) (*Cluster, error) {
 				}
 			}
 			_ = ndw.(e2wtypes.WalletLocker).Lock(ctx)
+		}
+		for wname, accts := range o.NDWallets {
+			w, err := nd.CreateWallet(ctx, wname, store, enc)
+			if err != nil {
+				return nil, err
+			}
+			if err := w.(e2wtypes.WalletLocker).Unlock(ctx, nil); err != nil {
+				return nil, err
+			}
+			for i, a := range accts {
+				k := DetKey("ndw-"+wname, i)
+				if _, err := w.(e2wtypes.WalletAccountImporter).ImportAccount(ctx, a, k.Priv.Marshal(), []byte("pass")); err != nil {
+					return nil, err
+				}
+			}
+			_ = w.(e2wtypes.WalletLocker).Lock(ctx)
 		}
 		inst.Store = store
 		f, err := memfetcher.New(ctx, memfetcher.WithStores([]e2wtypes.Store{store}), memfetcher.WithEncryptor(enc))
